@@ -7,9 +7,9 @@
 (* history: the calls plus the projection the specification requires.      *)
 (* Under -simulate only complete histories (Len = MaxFacts) are printed.   *)
 (***************************************************************************)
-EXTENDS HpoSim, Json
+EXTENDS HpoSetOps, Json
 
-CONSTANTS MaxFacts, EmitAll, WithPairs
+CONSTANTS MaxFacts, EmitAll, WithPairs, WithExtras
 
 VARIABLE facts      \* history: Seq of [k, x, t] (t = 0: a record without term)
 
@@ -42,7 +42,9 @@ EdgeSeq == LET E == {<<p, c>> \in Ids \X Ids : p \in parents[c]}
            IN  SetToSeq(E)
 
 Expect == [ arena |-> arena, edges |-> EdgeSeq, facts |-> facts, expect |-> Proj,
-            pairs |-> IF WithPairs THEN SimPairs ELSE <<>> ]
+            pairs |-> IF WithPairs THEN SimPairs ELSE <<>>,
+            paths |-> IF WithExtras THEN PathPairs ELSE <<>>,
+            sets |-> IF WithExtras THEN SetInfos ELSE <<>> ]
 
 Emit == (EmitAll \/ Len(facts) = MaxFacts) => PrintT(<<"REPLAY", ToJson(Expect)>>)
 
